@@ -16,7 +16,11 @@ EXPLANATION = (
 RULE_TEXT = "dominance/fact rule on the Some outcomes; provenance normal forms of the guards on the successful path; ring-normal-form template of the hash step"
 
 
+COUNTERS = set()
+
+
 def run(ctx, rep):
+    COUNTERS.clear()
     F = ctx.facts()
     prov.set_program(program(F))
     an = soundness(F, rep, "hash::GnuHashTable::find", "soundness")
@@ -27,67 +31,81 @@ def run(ctx, rep):
         hv = ("call", "hash::gnu_hash", (P(2),))
         nb = ("Div", ("len", F_(F_(me, "buckets"), "data")), ("call", "parse::ParseAt::size_for", (F_(F_(me, "buckets"), "class"),)))
         hdr = F_(me, "hdr")
-        # bloom word selection per class
-        wphi = fphi = None
-        for ph, ops in an.phi_ops.items():
-            vals = sorted((norm(v) for v in ops.values()), key=repr)
-            if vals == [C(32), C(64)]:
-                wphi = ph
-        rep.require(wphi is not None, "linkage", "bloom:width", w, "bloom word width is 32 / 64 by class", "no class-dependent bloom width {32, 64} found")
-        if wphi is not None:
-            blk = wphi.args[0]
-            word = lambda W, wide: ("payload", ("call", "parse::ParsingTable::get",
-                                                (("agg", "parse::ParsingTable", "ParsingTable", (F_(me, "endian"), F_(me, "class"), F_(me, "bloom"), ("agg", "marker::PhantomData", "PhantomData", ()))),
-                                                 ("Rem", ("Div", hv, C(W)), F_(hdr, "nbloom")))), "Ok")
-            for ph, ops in an.phi_ops.items():
-                if ph.args[0] == blk and ph is not wphi:
-                    by_w = {}
-                    for p, v in ops.items():
-                        by_w[norm(an.phi_ops[wphi][p])] = norm(v)
-                    if by_w == {C(32): word(32, False), C(64): word(64, True)}:
-                        fphi = ph
-                        # word types: the 32-bit word comes from a u32 table, the 64-bit one from a u64 table
-                        tys = {}
-                        for c in an.calls():
-                            if c.callee_qual == "parse::ParsingTable::get" and "bloom" in pp(c.args[0]) + pp(c.arg_values()[0]):
-                                g = [x for x in (c.callee.get("generics") or []) if not x.startswith("'")]
-                                tys[c.block] = g[-1] if g else None
-                        rep.require(sorted(tys.values(), key=str) == ["u32", "u64"], "linkage", "bloom:word-type", w, "ELF32 reads u32 words, ELF64 reads u64 words",
-                                    "bloom words are read as %s" % sorted(map(str, tys.values())))
-            rep.require(fphi is not None, "linkage", "bloom:word", w, "word = bloom[(hash / W) % nbloom] for W = 32 / 64",
-                        "the bloom word is not bloom[(hash / W) %% nbloom] over the class's word size")
-        outs = [st for v, st in __import__("analyzer.hashrules", fromlist=["some_outcomes"]).some_outcomes(an)]
-        if outs and wphi is not None and fphi is not None:
-            fs = fact_norms(outs[0])
-            Wn, Fn = norm(wphi), norm(fphi)
-            bit = lambda x: ("Eq",) + tuple(sorted((("BitAnd",) + tuple(sorted((Fn, ("Shl", C(1), ("Rem", x, Wn))), key=repr)), C(0)), key=repr))
+        # bloom filter and chain walk, judged per ELF class (the function is analysed once under class = ELF32 and once under
+        # class = ELF64, so it does not matter whether the class split is a match in find, a helper, or merged values)
+        from ..hashrules import some_outcomes
+        cls_fi = [("f", i, "class") for i, fd in enumerate(F.adts["hash::GnuHashTable"]["variants"][0]["fields"]) if fd["name"] == "class"][0]
+        cls_term = T.proj(T.deref(T.param(1)), cls_fi)
+        bucket = ("payload", ("call", "parse::ParsingTable::get", (F_(me, "buckets"), ("Rem", hv, nb))), "Ok")
+        so = F_(hdr, "table_start_idx")
+        nchain = ("Div", ("len", F_(F_(me, "chains"), "data")), ("call", "parse::ParseAt::size_for", (F_(F_(me, "chains"), "class"),)))
+        for cname, W, wty in (("ELF32", 32, "u32"), ("ELF64", 64, "u64")):
+            anc = analyze_fn(F, fn, (("var", cls_term, cname),))
+            outs = [st for v, st in some_outcomes(anc)]
+            kk = "[%s]" % cname
+            if not rep.require(bool(outs), "linkage", "find:some" + kk, w, "has a symbol-yielding outcome for %s" % cname, "find never yields a symbol for %s" % cname):
+                continue
+            st0 = outs[0]
+            fs = fact_norms(st0)
+            word = ("payload", ("call", "parse::ParsingTable::get",
+                                (("agg", "parse::ParsingTable", "ParsingTable", (F_(me, "endian"), F_(me, "class"), F_(me, "bloom"), ("agg", "marker::PhantomData", "PhantomData", ()))),
+                                 ("Rem", ("Div", hv, C(W)), F_(hdr, "nbloom")))), "Ok")
+            bit = lambda x: ("Eq",) + tuple(sorted((("BitAnd",) + tuple(sorted((word, ("Shl", C(1), ("Rem", x, C(W)))), key=repr)), C(0)), key=repr))
             h2 = ("payload", ("call", "u32::checked_shr", (hv, F_(hdr, "nshift"))), "Some")
-            rep.require(("false", bit(hv)) in fs, "linkage", "bloom:bit1", w, "first bloom bit = hash % W", "the successful path does not test bit (hash %% W) of the bloom word")
-            rep.require(("false", bit(h2)) in fs, "linkage", "bloom:bit2", w, "second bloom bit = (hash >> nshift) % W on the same word",
-                        "the successful path does not test bit ((hash >> nshift) %% W) of the same bloom word")
-            bucket = ("payload", ("call", "parse::ParsingTable::get", (F_(me, "buckets"), ("Rem", hv, nb))), "Ok")
-            so = F_(hdr, "table_start_idx")
-            rep.require(("false", ("Lt", bucket, so)) in fs, "linkage", "chain:start-guard", w, "bucket value below symoffset means absent",
+            rep.require(("false", bit(hv)) in fs, "linkage", "bloom:bit1" + kk, w, "first bloom bit = hash %% %d of bloom[(hash / %d) %% nbloom]" % (W, W),
+                        "%s: the successful path does not test bit (hash %% %d) of the bloom word bloom[(hash / %d) %% nbloom]" % (cname, W, W))
+            rep.require(("false", bit(h2)) in fs, "linkage", "bloom:bit2" + kk, w, "second bloom bit = (hash >> nshift) %% %d on the same word" % W,
+                        "%s: the successful path does not test bit ((hash >> nshift) %% %d) of the same bloom word" % (cname, W))
+            # the word is read from a table of class-sized words
+            tys = set()
+            for f in st0.facts:
+                if f[0] == "var" and f[1].op == "call" and f[1].args[0] == "parse::ParsingTable::get" and "bloom" in pp(f[1].args[2][0]):
+                    g = [x for x in f[1].args[1] if not x.startswith("'")]
+                    tys.add(g[-1] if g else None)
+            for c in anc.calls():
+                if c.callee_qual == "parse::ParsingTable::get" and "bloom" in pp(c.args[0]) + pp(c.arg_values()[0]) and c.block in anc.entry:
+                    g = [x for x in (c.callee.get("generics") or []) if not x.startswith("'")]
+                    tys.add(g[-1] if g else None)
+            rep.require(tys == {wty}, "linkage", "bloom:word-type" + kk, w, "%s reads %s words" % (cname, wty), "%s: bloom words are read as %s" % (cname, sorted(map(str, tys))))
+            rep.require(("false", ("Lt", bucket, so)) in fs, "linkage", "chain:start-guard" + kk, w, "bucket value below symoffset means absent",
                         "the successful path does not require buckets[hash %% nbucket] >= symoffset")
-            # loop range and per-entry tests
+            # chain range: `for i in (bucket - symoffset)..nchain`, or the same as a counter loop
             rng = None
-            for c in an.calls():
-                if c.declared_norm == "iter::IntoIterator::into_iter":
+            for c in anc.calls():
+                if c.declared_norm == "iter::IntoIterator::into_iter" and c.block in anc.entry:
                     a0 = norm(c.arg_values()[0])
                     if a0[0] == "agg" and a0[1] == "ops::Range":
-                        rng = a0
-            nchain = ("Div", ("len", F_(F_(me, "chains"), "data")), ("call", "parse::ParseAt::size_for", (F_(F_(me, "chains"), "class"),)))
-            rep.require(rng is not None and rng[3] == (("-", bucket, so), nchain), "linkage", "chain:range", w, "walk chain entries (bucket - symoffset) .. nchain",
-                        "the chain walk covers %s" % (show(rng)[:200] if rng else None))
-            idxs = [f for f in fs if f[0] == "true" and f[1][0] == "Eq" and "BitOr" in repr(f[1])]
+                        rng = a0[3]
+            if rng is None and len(anc.loops) == 1:
+                hdrb = next(iter(anc.loops))
+                body = anc.loops[hdrb]
+                for ph, ops in anc.phi_ops.items():
+                    if ph.args[0] != (anc.fid, hdrb):
+                        continue
+                    ent = [norm(v) for p, v in ops.items() if p not in body]
+                    bk = [norm(v) for p, v in ops.items() if p in body]
+                    if ent == [("-", bucket, so)] and bk and all(x == prov.ADD(norm(ph), C(1)) for x in bk):
+                        for b_, d in anc.switches.items():
+                            nd = norm(d)
+                            if b_ in body and nd[0] == "Lt" and nd[1] == norm(ph):
+                                rng = (ent[0], nd[2])
+                                COUNTERS.add(norm(ph))
+            rep.require(rng is not None and tuple(rng) == (("-", bucket, so), nchain), "linkage", "chain:range" + kk, w, "walk chain entries (bucket - symoffset) .. nchain",
+                        "the chain walk covers %s" % (show(("agg", "ops::Range", None, tuple(rng)))[:200] if rng else None))
+            # match test: hash | 1 == chain | 1   (or (hash ^ chain) >> 1 == 0: equal except for bit 0)
             okm = False
-            for f in idxs:
-                a, b = f[1][1], f[1][2]
-                for x, y in ((a, b), (b, a)):
-                    if x == ("BitOr",) + tuple(sorted((hv, C(1)), key=repr)) and y[0] == "BitOr" and C(1) in y and any(
-                            z != C(1) and z[0] == "payload" and z[1][0] == "call" and z[1][1] == "parse::ParsingTable::get" and z[1][2][0] == F_(me, "chains") for z in y[1:]):
+            for f in fs:
+                if f[0] != "true" or f[1][0] != "Eq":
+                    continue
+                a_, b_ = f[1][1], f[1][2]
+                chain_word = lambda z: isinstance(z, tuple) and z and z[0] == "payload" and z[1][0] == "call" and z[1][1] == "parse::ParsingTable::get" and z[1][2][0] == F_(me, "chains")
+                for x, y in ((a_, b_), (b_, a_)):
+                    if x == ("BitOr",) + tuple(sorted((hv, C(1)), key=repr)) and isinstance(y, tuple) and y[0] == "BitOr" and C(1) in y and any(chain_word(z) for z in y[1:]):
                         okm = True
-            rep.require(okm, "linkage", "chain:match", w, "hash | 1 == chain[i] | 1", "the successful path does not compare (hash | 1) with (chain entry | 1)")
+                    if x == C(0) and isinstance(y, tuple) and y[0] == "Shr" and y[2] == C(1) and isinstance(y[1], tuple) and y[1][0] == "BitXor" \
+                            and hv in y[1][1:] and any(chain_word(z) for z in y[1][1:]):
+                        okm = True
+            rep.require(okm, "linkage", "chain:match" + kk, w, "hash | 1 == chain[i] | 1", "the successful path does not compare the hash with the chain entry ignoring bit 0")
         # returned index = chain index + symoffset
         from ..hashrules import some_outcomes
         for v, st in some_outcomes(an):
@@ -101,6 +119,8 @@ def run(ctx, rep):
         # ways out of the walk: the range is exhausted, the stop bit, a failed read, or the match
         def stop(d, val, sw):
             if d[0] == "discr" and d[1][0] == "fresh" and range_of_next(an, sw) is not None:   # the range itself is rule chain:range
+                return val == "0" or "leaves while the range still has entries"
+            if d[0] == "Lt" and d[1] in COUNTERS and d[2] == nchain:                            # the same range as a counter loop (rule chain:range)
                 return val == "0" or "leaves while the range still has entries"
             if d[0] in ("Ne", "Eq") and len(d) == 3:
                 band = [x for x in d[1:] if isinstance(x, tuple) and x[0] == "BitAnd" and C(1) in x[1:] and "chains" in repr(x)]
